@@ -130,8 +130,31 @@ R2 = ['~id:q~ $[*][ yes() ]']
            "thorough": {"timeout": 6000, "K": {"LO": -2, "HI": 3}, "shards": product(twice=[False, True], w1=[0, 2])}},
 )
 def references(twice: bool, v1: int, w1: int, v2: int, w2: int) -> str:
+    import datetime
+    import csvpath.csvpaths as _cps
+
+    class _Clock:
+        """every run starts in its own second (order among runs of one second is not claimed by C10)"""
+
+        NOW = datetime.datetime(2031, 5, 6, 11, 59, 57, tzinfo=datetime.timezone.utc)
+
+        @classmethod
+        def now(cls, tz=None):
+            cls.NOW = cls.NOW + datetime.timedelta(seconds=1)
+            return cls.NOW
+
+    saved = _cps.datetime
     with NoTracing():
+        _cps.datetime = _Clock
         root, cs = kitpaths.env({"g": G, "r": R, "r2": R2}, policy="raise, collect, print", data=DATA2)
+    try:
+        return _references(cs, root, twice, v1, w1, v2, w2)
+    finally:
+        with NoTracing():
+            _cps.datetime = saved
+
+
+def _references(cs, root, twice, v1, w1, v2, w2) -> str:
     problems = []
     kit.HOLD.update(symv=v1, symw=w1, symt=-1)
     cs.collect_paths(filename="data", pathsname="g")
